@@ -44,6 +44,7 @@ type Item struct {
 	Replay  *ReplayInfo
 	Watch   []WatchTerm
 	Finding *Finding
+	Hyps    []string // extra hypotheses for this obligation only (earlier ensures named by `uses`)
 }
 
 type WatchTerm struct {
@@ -213,4 +214,24 @@ func sortedKeys(m map[string]bool) []string {
 	}
 	sort.Strings(out)
 	return out
+}
+
+// lambda binds an array comprehension  k -> body  (k is written k!l in body)
+// to a name.  z3 gets a define-fun with a lambda term; cvc5, which rejects
+// lambda terms as arrays, gets a fresh array constant with a quantified
+// definition (see buildQuery).
+func (c *Ctx) lambda(resultSort, body string) string {
+	c.n++
+	name := fmt.Sprintf("lam!%d", c.n)
+	c.decls = append(c.decls, "LAMBDA\t"+name+"\t"+resultSort+"\t"+body)
+	return name
+}
+
+func expandLambdaDecl(line string, forCVC5 bool) string {
+	parts := strings.SplitN(line, "\t", 4)
+	name, sort, body := parts[1], parts[2], parts[3]
+	if !forCVC5 {
+		return fmt.Sprintf("(define-fun %s () (Array (_ BitVec 64) %s) (lambda ((k!l (_ BitVec 64))) %s))", name, sort, body)
+	}
+	return fmt.Sprintf("(declare-const %s (Array (_ BitVec 64) %s))\n(assert (forall ((k!l (_ BitVec 64))) (! (= (select %s k!l) %s) :pattern ((select %s k!l)))))", name, sort, name, body, name)
 }
